@@ -1411,9 +1411,9 @@ impl MonthShape {
                 gap_end,
                 max_day,
             } => {
-                let day = day_ordinal + (gap_end - gap_start + 1);
-                if day <= max_day {
-                    Some(day)
+                let gap_len = gap_end - gap_start + 1;
+                if day_ordinal <= max_day - gap_len {
+                    Some(day_ordinal + gap_len)
                 } else {
                     None
                 }
